@@ -113,6 +113,10 @@ func (this *Server) setup() error {
 		return err
 	}
 
+	if verifNoListen {
+		return this.verifFinishSetup(raftTransport)
+	}
+
 	// Start server
 	this.listener, err = net.Listen("tcp", net.JoinHostPort("", this.config.Port))
 	if err != nil {
